@@ -14,7 +14,7 @@ PLAN = {
     'C07': dict(level='proof', engines=['tasknative', 'matchnative', 'beatstruct', 'multipitchnative']),
     'C08': dict(level='proof', engines=['segnative', 'tasknative', 'multipitchnative', 'matchnative', 'chordevalnative']),
     'C09': dict(level='proof', engines=['chordnative', 'keynative', 'tasknative', 'chordevalnative']),
-    'C10': dict(level='proof', engines=['chordre']),
+    'C10': dict(level='proof', engines=['chordre', 'chordnative']),
     'C11': dict(level='proof', engines=['chordnative']),
     'C12': dict(level='proof', engines=['sumlib', 'segnative', 'hiernative', 'chordevalnative']),
     'C13': dict(level='proof', engines=['intervalsnative']),
